@@ -594,6 +594,14 @@ func (e *Env) call(n *ECall) (Val, types.Type) {
 	arg := func(i int) Val { return e.eval(n.Args[i]) }
 	argT := func(i int) Term { return e.evalTerm(n.Args[i]) }
 	switch name {
+	case "addrof":
+		// addrof(v): address of the package-level variable v
+		if gid, ok := n.Args[0].(*EIdent); ok && e.r.Fn != nil {
+			if sg, ok := e.r.Fn.Pkg.Members[gid.Name].(*ssa.Global); ok {
+				return e.r.globalAddr(e.st, sg), nil
+			}
+		}
+		e.fail("addrof needs a package-level variable")
 	case "old":
 		sub := e.sub(e.old)
 		sub.at = nil
